@@ -741,7 +741,10 @@ impl Scenario for CrashScenario {
         'outer: for p in cands {
             let is_target = target_op.is_some() && p.op == target_op;
             for act in variants_for(p, &mut rng, self.mode, is_target) {
-                if n_variants >= max_variants || std::time::Instant::now() >= env.deadline {
+                if std::time::Instant::now() >= env.deadline {
+                    out.deadline_cut = true;
+                }
+                if n_variants >= max_variants || out.deadline_cut {
                     out.stat("enumeration_truncated", 1);
                     break 'outer;
                 }
@@ -763,6 +766,7 @@ impl Scenario for CrashScenario {
                 plan.incarnations[crash_inc].faults = faults;
                 let rr = run_plan(&env.bins, &plan, &RunOpts::default());
                 out.executions += rr.incs.len() as u64;
+                out.digest = crate::rng::fnv_step(out.digest, history_hash(&rr));
                 absorb_summary(&mut out, &rr);
                 out.stat("sim_clock_ms", sim_clock_ms(&rr, &plan));
                 let fired = rr.incs.get(crash_inc).map(|i| matches!(i.exit, Exit::Code(77))).unwrap_or(false);
